@@ -40,6 +40,10 @@ type GenginePool struct {
 	updateLock sync.Mutex
 	clear      bool //whether rules has been cleared ，if true it means there is no rules in gengine
 
+	//guards the published rules (ruleBuilder and its Kc), the clear flag and execModel:
+	//management methods publish under the write lock, executions read under the read lock
+	kcLock sync.RWMutex
+
 	rbSlice []*builder.RuleBuilder
 	//total gengine instance number
 	max int64
@@ -219,12 +223,11 @@ func (gp *GenginePool) UpdatePooledRules(ruleStr string) error {
 		return errors.New(fmt.Sprintf("if you want to clear all rules, use method \"pool.ClearPoolRules()\""))
 	}
 
+	//publish: executions take the published rules once, when they start (see usePublishedRules)
+	gp.kcLock.Lock()
 	gp.ruleBuilder = rbi
-	for i := 0; i < int(gp.max); i++ {
-		gp.rbSlice[i].Kc = gp.ruleBuilder.Kc
-	}
-
 	gp.clear = false
+	gp.kcLock.Unlock()
 	return nil
 }
 
@@ -265,17 +268,25 @@ func getKc(ruleString string) (*base.KnowledgeContext, error) {
 	return kc, nil
 }
 
-func updateIncremental(kc *base.KnowledgeContext, rb *builder.RuleBuilder) {
+//copy on write: the rules of old are merged with the new rules of kc into a fresh rule container,
+//old itself is left untouched because running executions may still use it
+func updateIncremental(kc *base.KnowledgeContext, old *base.KnowledgeContext) *base.KnowledgeContext {
 	//copy
-	newRuleEntities := make(map[string]*base.RuleEntity, len(rb.Kc.RuleEntities))
-	for mk, mv := range rb.Kc.RuleEntities {
+	newRuleEntities := make(map[string]*base.RuleEntity, len(old.RuleEntities))
+	for mk, mv := range old.RuleEntities {
 		newRuleEntities[mk] = mv
 	}
 
 	//copy
-	newSortRules := make([]*base.RuleEntity, len(rb.Kc.SortRules))
-	for sk, sv := range rb.Kc.SortRules {
+	newSortRules := make([]*base.RuleEntity, len(old.SortRules))
+	for sk, sv := range old.SortRules {
 		newSortRules[sk] = sv
+	}
+
+	//copy
+	indexMap := make(map[string]int, len(old.SortRulesIndexMap))
+	for ik, iv := range old.SortRulesIndexMap {
+		indexMap[ik] = iv
 	}
 
 	//kc store the new rules
@@ -284,7 +295,7 @@ func updateIncremental(kc *base.KnowledgeContext, rb *builder.RuleBuilder) {
 		if vm, ok := newRuleEntities[k]; ok {
 			//repalce update
 			//search
-			index := rb.Kc.SortRulesIndexMap[v.RuleName]
+			index := indexMap[v.RuleName]
 			if v.Salience == vm.Salience {
 				//replace
 				newSortRules[index] = v
@@ -302,11 +313,10 @@ func updateIncremental(kc *base.KnowledgeContext, rb *builder.RuleBuilder) {
 				}
 
 				//update the sort index
-				indexMap := make(map[string]int)
+				indexMap = make(map[string]int)
 				for k, v := range newSortRules {
 					indexMap[v.RuleName] = k
 				}
-				rb.Kc.SortRulesIndexMap = indexMap
 			}
 
 			newRuleEntities[k] = v
@@ -324,18 +334,20 @@ func updateIncremental(kc *base.KnowledgeContext, rb *builder.RuleBuilder) {
 			}
 
 			//update the sort index
-			indexMap := make(map[string]int)
+			indexMap = make(map[string]int)
 			for k, v := range newSortRules {
 				indexMap[v.RuleName] = k
 			}
-			rb.Kc.SortRulesIndexMap = indexMap
 
 			newRuleEntities[k] = v
 		}
 	}
 
-	rb.Kc.RuleEntities = newRuleEntities
-	rb.Kc.SortRules = newSortRules
+	return &base.KnowledgeContext{
+		RuleEntities:      newRuleEntities,
+		SortRules:         newSortRules,
+		SortRulesIndexMap: indexMap,
+	}
 }
 
 //sync method
@@ -355,15 +367,13 @@ func (gp *GenginePool) UpdatePooledRulesIncremental(ruleStr string) error {
 		return e
 	}
 
-	//update main
-	updateIncremental(kci, gp.ruleBuilder)
+	//merge into a fresh container, then publish it
+	newKc := updateIncremental(kci, gp.ruleBuilder.Kc)
 
-	//update instance
-	for i := 0; i < int(gp.max); i++ {
-		gp.rbSlice[i].Kc = gp.ruleBuilder.Kc
-	}
-
+	gp.kcLock.Lock()
+	gp.ruleBuilder.Kc = newKc
 	gp.clear = false
+	gp.kcLock.Unlock()
 	return nil
 }
 
@@ -372,11 +382,10 @@ func (gp *GenginePool) ClearPoolRules() {
 	gp.updateLock.Lock()
 	defer gp.updateLock.Unlock()
 	//keep an (empty) master copy, so that later incremental updates and removals have something to work on
+	gp.kcLock.Lock()
 	gp.ruleBuilder = builder.NewRuleBuilder(gp.ruleBuilder.Dc)
 	gp.clear = true
-	for i := 0; i < int(gp.max); i++ {
-		gp.rbSlice[i].Kc = gp.ruleBuilder.Kc
-	}
+	gp.kcLock.Unlock()
 }
 
 //remove rules
@@ -384,15 +393,11 @@ func (gp *GenginePool) RemoveRules(ruleNames []string) error {
 	gp.updateLock.Lock()
 	defer gp.updateLock.Unlock()
 
+	//the master builder installs a fresh rule container, which is thereby published
+	gp.kcLock.Lock()
 	e := gp.ruleBuilder.RemoveRules(ruleNames)
-	if e != nil {
-		return e
-	}
-
-	for _, rb := range gp.rbSlice {
-		_ = rb.RemoveRules(ruleNames)
-	}
-	return nil
+	gp.kcLock.Unlock()
+	return e
 }
 
 //plugin_exportName_apiName.so
@@ -427,14 +432,34 @@ func (gp *GenginePool) SetExecModel(execModel int) error {
 	if execModel != SortModel && execModel != ConcurrentModel && execModel != MixModel && execModel != InverseMixModel {
 		return errors.New(fmt.Sprintf("exec model must be SORT_MODEL(1) or CONCOURRENT_MODEL(2) or MIX_MODEL(3) or INVERSE_MIX_MODEL(4), now it is %d", execModel))
 	} else {
+		gp.kcLock.Lock()
 		gp.execModel = execModel
+		gp.kcLock.Unlock()
 	}
 	return nil
 }
 
 //get the execute model the user set
 func (gp *GenginePool) GetExecModel() int {
+	gp.kcLock.RLock()
+	defer gp.kcLock.RUnlock()
 	return gp.execModel
+}
+
+//whether the rules have been cleared
+func (gp *GenginePool) isClear() bool {
+	gp.kcLock.RLock()
+	defer gp.kcLock.RUnlock()
+	return gp.clear
+}
+
+//an execution takes the published rules exactly once, when it starts: the instance is owned by this
+//request until it is put back, so nothing changes its rule container while the execution runs
+func (gp *GenginePool) usePublishedRules(gw *gengineWrapper) {
+	gw.rulebuilder = gp.rbSlice[gw.tag]
+	gp.kcLock.RLock()
+	gw.rulebuilder.Kc = gp.ruleBuilder.Kc
+	gp.kcLock.RUnlock()
 }
 
 //check the rule whether exist
@@ -512,7 +537,7 @@ func (gp *GenginePool) prepare(reqName string, req interface{}, respName string,
 		return nil, e
 	}
 
-	gw.rulebuilder = gp.rbSlice[gw.tag]
+	gp.usePublishedRules(gw)
 
 	if reqName != "" && req != nil {
 		gw.rulebuilder.Dc.Add(reqName, req)
@@ -531,7 +556,7 @@ func (gp *GenginePool) prepareWithMultiInput(data map[string]interface{}) (*geng
 		return nil, e
 	}
 
-	gw.rulebuilder = gp.rbSlice[gw.tag]
+	gp.usePublishedRules(gw)
 
 	for k, v := range data {
 		//user should not inject "" string or nil value
@@ -553,7 +578,7 @@ func (gp *GenginePool) ExecuteRulesWithSpecifiedEM(reqName string, req interface
 
 	returnResultMap := make(map[string]interface{})
 	//rules has bean cleared
-	if gp.clear {
+	if gp.isClear() {
 		//no data to execute rule
 		return nil, returnResultMap
 	}
@@ -568,26 +593,27 @@ func (gp *GenginePool) ExecuteRulesWithSpecifiedEM(reqName string, req interface
 		gp.putGengineLocked(gw)
 	}()
 
-	if gp.execModel == SortModel { //sort
+	execModel := gp.GetExecModel()
+	if execModel == SortModel { //sort
 		// when some rule execute error ,it will continue to execute last
 		e := gw.gengine.Execute(gw.rulebuilder, true)
 		returnResultMap, _ = gw.gengine.GetRulesResultMap()
 		return e, returnResultMap
 	}
 
-	if gp.execModel == ConcurrentModel { //concurrent
+	if execModel == ConcurrentModel { //concurrent
 		e := gw.gengine.ExecuteConcurrent(gw.rulebuilder)
 		returnResultMap, _ = gw.gengine.GetRulesResultMap()
 		return e, returnResultMap
 	}
 
-	if gp.execModel == MixModel { //mix
+	if execModel == MixModel { //mix
 		e := gw.gengine.ExecuteMixModel(gw.rulebuilder)
 		returnResultMap, _ = gw.gengine.GetRulesResultMap()
 		return e, returnResultMap
 	}
 
-	if gp.execModel == InverseMixModel { // inverse mix model
+	if execModel == InverseMixModel { // inverse mix model
 		e := gw.gengine.ExecuteInverseMixModel(gw.rulebuilder)
 		returnResultMap, _ = gw.gengine.GetRulesResultMap()
 		return e, returnResultMap
@@ -606,7 +632,7 @@ func (gp *GenginePool) ExecuteRulesWithMultiInputWithSpecifiedEM(data map[string
 
 	returnResultMap := make(map[string]interface{})
 	//rules has bean cleared
-	if gp.clear {
+	if gp.isClear() {
 		//no data to execute rule
 		return nil, returnResultMap
 	}
@@ -621,26 +647,27 @@ func (gp *GenginePool) ExecuteRulesWithMultiInputWithSpecifiedEM(data map[string
 		gp.putGengineLocked(gw)
 	}()
 
-	if gp.execModel == SortModel { //sort
+	execModel := gp.GetExecModel()
+	if execModel == SortModel { //sort
 		// when some rule execute error ,it will continue to execute last
 		e := gw.gengine.Execute(gw.rulebuilder, true)
 		returnResultMap, _ = gw.gengine.GetRulesResultMap()
 		return e, returnResultMap
 	}
 
-	if gp.execModel == ConcurrentModel { //concurrent
+	if execModel == ConcurrentModel { //concurrent
 		e := gw.gengine.ExecuteConcurrent(gw.rulebuilder)
 		returnResultMap, _ = gw.gengine.GetRulesResultMap()
 		return e, returnResultMap
 	}
 
-	if gp.execModel == MixModel { //mix
+	if execModel == MixModel { //mix
 		e := gw.gengine.ExecuteMixModel(gw.rulebuilder)
 		returnResultMap, _ = gw.gengine.GetRulesResultMap()
 		return e, returnResultMap
 	}
 
-	if gp.execModel == InverseMixModel { // inverse mix model
+	if execModel == InverseMixModel { // inverse mix model
 		e := gw.gengine.ExecuteInverseMixModel(gw.rulebuilder)
 		returnResultMap, _ = gw.gengine.GetRulesResultMap()
 		return e, returnResultMap
@@ -659,7 +686,7 @@ func (gp *GenginePool) ExecuteSelectedWithSpecifiedEM(data map[string]interface{
 
 	returnResultMap := make(map[string]interface{})
 	//rules has bean cleared
-	if gp.clear {
+	if gp.isClear() {
 		//no data to execute rule
 		return nil, returnResultMap
 	}
@@ -674,25 +701,26 @@ func (gp *GenginePool) ExecuteSelectedWithSpecifiedEM(data map[string]interface{
 		gp.putGengineLocked(gw)
 	}()
 
-	if gp.execModel == SortModel {
+	execModel := gp.GetExecModel()
+	if execModel == SortModel {
 		e = gw.gengine.ExecuteSelectedRules(gw.rulebuilder, names)
 		returnResultMap, _ = gw.gengine.GetRulesResultMap()
 		return e, returnResultMap
 	}
 
-	if gp.execModel == ConcurrentModel {
+	if execModel == ConcurrentModel {
 		e = gw.gengine.ExecuteSelectedRulesConcurrent(gw.rulebuilder, names)
 		returnResultMap, _ = gw.gengine.GetRulesResultMap()
 		return e, returnResultMap
 	}
 
-	if gp.execModel == MixModel {
+	if execModel == MixModel {
 		e = gw.gengine.ExecuteSelectedRulesMixModel(gw.rulebuilder, names)
 		returnResultMap, _ = gw.gengine.GetRulesResultMap()
 		return e, returnResultMap
 	}
 
-	if gp.execModel == InverseMixModel {
+	if execModel == InverseMixModel {
 		e = gw.gengine.ExecuteSelectedRulesInverseMixModel(gw.rulebuilder, names)
 		returnResultMap, _ = gw.gengine.GetRulesResultMap()
 		return e, returnResultMap
@@ -705,7 +733,7 @@ func (gp *GenginePool) ExecuteSelectedWithSpecifiedEM(data map[string]interface{
 func (gp *GenginePool) Execute(data map[string]interface{}, b bool) (error, map[string]interface{}) {
 	returnResultMap := make(map[string]interface{})
 	//rules has bean cleared
-	if gp.clear {
+	if gp.isClear() {
 		//no data to execute rule
 		return nil, returnResultMap
 	}
@@ -730,7 +758,7 @@ func (gp *GenginePool) ExecuteWithStopTagDirect(data map[string]interface{}, b b
 
 	returnResultMap := make(map[string]interface{})
 	//rules has bean cleared
-	if gp.clear {
+	if gp.isClear() {
 		//no data to execute rule
 		return nil, returnResultMap
 	}
@@ -754,7 +782,7 @@ func (gp *GenginePool) ExecuteWithStopTagDirect(data map[string]interface{}, b b
 func (gp *GenginePool) ExecuteConcurrent(data map[string]interface{}) (error, map[string]interface{}) {
 	returnResultMap := make(map[string]interface{})
 	//rules has bean cleared
-	if gp.clear {
+	if gp.isClear() {
 		//no data to execute rule
 		return nil, returnResultMap
 	}
@@ -778,7 +806,7 @@ func (gp *GenginePool) ExecuteConcurrent(data map[string]interface{}) (error, ma
 func (gp *GenginePool) ExecuteMixModel(data map[string]interface{}) (error, map[string]interface{}) {
 	returnResultMap := make(map[string]interface{})
 	//rules has bean cleared
-	if gp.clear {
+	if gp.isClear() {
 		//no data to execute rule
 		return nil, returnResultMap
 	}
@@ -802,7 +830,7 @@ func (gp *GenginePool) ExecuteMixModel(data map[string]interface{}) (error, map[
 func (gp *GenginePool) ExecuteMixModelWithStopTagDirect(data map[string]interface{}, sTag *Stag) (error, map[string]interface{}) {
 	returnResultMap := make(map[string]interface{})
 	//rules has bean cleared
-	if gp.clear {
+	if gp.isClear() {
 		//no data to execute rule
 		return nil, returnResultMap
 	}
@@ -827,7 +855,7 @@ func (gp *GenginePool) ExecuteMixModelWithStopTagDirect(data map[string]interfac
 func (gp *GenginePool) ExecuteSelectedRules(data map[string]interface{}, names []string) (error, map[string]interface{}) {
 	returnResultMap := make(map[string]interface{})
 	//rules has bean cleared
-	if gp.clear {
+	if gp.isClear() {
 		//no data to execute rule
 		return nil, returnResultMap
 	}
@@ -851,7 +879,7 @@ func (gp *GenginePool) ExecuteSelectedRules(data map[string]interface{}, names [
 func (gp *GenginePool) ExecuteSelectedRulesWithControl(data map[string]interface{}, b bool, names []string) (error, map[string]interface{}) {
 	returnResultMap := make(map[string]interface{})
 	//rules has bean cleared
-	if gp.clear {
+	if gp.isClear() {
 		//no data to execute rule
 		return nil, returnResultMap
 	}
@@ -875,7 +903,7 @@ func (gp *GenginePool) ExecuteSelectedRulesWithControl(data map[string]interface
 func (gp *GenginePool) ExecuteSelectedRulesWithControlAsGivenSortedName(data map[string]interface{}, b bool, sortedNames []string) (error, map[string]interface{}) {
 	returnResultMap := make(map[string]interface{})
 	//rules has bean cleared
-	if gp.clear {
+	if gp.isClear() {
 		//no data to execute rule
 		return nil, returnResultMap
 	}
@@ -899,7 +927,7 @@ func (gp *GenginePool) ExecuteSelectedRulesWithControlAsGivenSortedName(data map
 func (gp *GenginePool) ExecuteSelectedRulesWithControlAndStopTag(data map[string]interface{}, b bool, sTag *Stag, names []string) (error, map[string]interface{}) {
 	returnResultMap := make(map[string]interface{})
 	//rules has bean cleared
-	if gp.clear {
+	if gp.isClear() {
 		//no data to execute rule
 		return nil, returnResultMap
 	}
@@ -923,7 +951,7 @@ func (gp *GenginePool) ExecuteSelectedRulesWithControlAndStopTag(data map[string
 func (gp *GenginePool) ExecuteSelectedRulesWithControlAndStopTagAsGivenSortedName(data map[string]interface{}, b bool, sTag *Stag, sortedNames []string) (error, map[string]interface{}) {
 	returnResultMap := make(map[string]interface{})
 	//rules has bean cleared
-	if gp.clear {
+	if gp.isClear() {
 		//no data to execute rule
 		return nil, returnResultMap
 	}
@@ -948,7 +976,7 @@ func (gp *GenginePool) ExecuteSelectedRulesConcurrent(data map[string]interface{
 
 	returnResultMap := make(map[string]interface{})
 	//rules has bean cleared
-	if gp.clear {
+	if gp.isClear() {
 		//no data to execute rule
 		return nil, returnResultMap
 	}
@@ -973,7 +1001,7 @@ func (gp *GenginePool) ExecuteSelectedRulesMixModel(data map[string]interface{},
 
 	returnResultMap := make(map[string]interface{})
 	//rules has bean cleared
-	if gp.clear {
+	if gp.isClear() {
 		//no data to execute rule
 		return nil, returnResultMap
 	}
@@ -998,7 +1026,7 @@ func (gp *GenginePool) ExecuteSelectedRulesMixModel(data map[string]interface{},
 func (gp *GenginePool) ExecuteInverseMixModel(data map[string]interface{}) (error, map[string]interface{}) {
 	returnResultMap := make(map[string]interface{})
 	//rules has bean cleared
-	if gp.clear {
+	if gp.isClear() {
 		//no data to execute rule
 		return nil, returnResultMap
 	}
@@ -1024,7 +1052,7 @@ func (gp *GenginePool) ExecuteSelectedRulesInverseMixModel(data map[string]inter
 
 	returnResultMap := make(map[string]interface{})
 	//rules has bean cleared
-	if gp.clear {
+	if gp.isClear() {
 		//no data to execute rule
 		return nil, returnResultMap
 	}
@@ -1049,7 +1077,7 @@ func (gp *GenginePool) ExecuteNSortMConcurrent(nSort, mConcurrent int, b bool, d
 
 	returnResultMap := make(map[string]interface{})
 	//rules has bean cleared
-	if gp.clear {
+	if gp.isClear() {
 		//no data to execute rule
 		return nil, returnResultMap
 	}
@@ -1073,7 +1101,7 @@ func (gp *GenginePool) ExecuteNSortMConcurrent(nSort, mConcurrent int, b bool, d
 func (gp *GenginePool) ExecuteNConcurrentMSort(nSort, mConcurrent int, b bool, data map[string]interface{}) (error, map[string]interface{}) {
 	returnResultMap := make(map[string]interface{})
 	//rules has bean cleared
-	if gp.clear {
+	if gp.isClear() {
 		//no data to execute rule
 		return nil, returnResultMap
 	}
@@ -1097,7 +1125,7 @@ func (gp *GenginePool) ExecuteNConcurrentMSort(nSort, mConcurrent int, b bool, d
 func (gp *GenginePool) ExecuteNConcurrentMConcurrent(nSort, mConcurrent int, b bool, data map[string]interface{}) (error, map[string]interface{}) {
 	returnResultMap := make(map[string]interface{})
 	//rules has bean cleared
-	if gp.clear {
+	if gp.isClear() {
 		//no data to execute rule
 		return nil, returnResultMap
 	}
@@ -1122,7 +1150,7 @@ func (gp *GenginePool) ExecuteNConcurrentMConcurrent(nSort, mConcurrent int, b b
 func (gp *GenginePool) ExecuteSelectedNSortMConcurrent(nSort, mConcurrent int, b bool, names []string, data map[string]interface{}) (error, map[string]interface{}) {
 	returnResultMap := make(map[string]interface{})
 	//rules has bean cleared
-	if gp.clear {
+	if gp.isClear() {
 		//no data to execute rule
 		return nil, returnResultMap
 	}
@@ -1147,7 +1175,7 @@ func (gp *GenginePool) ExecuteSelectedNConcurrentMSort(nSort, mConcurrent int, b
 
 	returnResultMap := make(map[string]interface{})
 	//rules has bean cleared
-	if gp.clear {
+	if gp.isClear() {
 		//no data to execute rule
 		return nil, returnResultMap
 	}
@@ -1172,7 +1200,7 @@ func (gp *GenginePool) ExecuteSelectedNConcurrentMConcurrent(nSort, mConcurrent 
 
 	returnResultMap := make(map[string]interface{})
 	//rules has bean cleared
-	if gp.clear {
+	if gp.isClear() {
 		//no data to execute rule
 		return nil, returnResultMap
 	}
@@ -1197,7 +1225,7 @@ func (gp *GenginePool) ExecuteDAGModel(dag [][]string, data map[string]interface
 
 	returnResultMap := make(map[string]interface{})
 	//rules has bean cleared
-	if gp.clear {
+	if gp.isClear() {
 		//no data to execute rule
 		return nil, returnResultMap
 	}
